@@ -1,7 +1,7 @@
 (* C04 oracle.  Protocol (numbers in hex, '-' = empty list):
      case <new|old> | <op>;<op>;...
         op = R
-           | S <deploy a:c,..> <replace a:c,..> <nonce a:v,..> <store a:k:v,..> <decl h,..>
+           | S <deploy a:c,..> <replace a:c,..> <nonce a:v,..> <store a:k:v,..> <decl h,..> <delivered h,..>
                <blockhash> <txs h[:msg],..> <v2 0|1> <casm h:c:v2hash,..> <migr h:c,..>
      replies   ops <bit per op: store accepted (valid_next) / revert succeeded>
                guard <per op: for S the legacy guard (no no-op zero write, or genesis) 1/0, for R '-'>
@@ -22,11 +22,11 @@ let tx s = match String.split_on_char ':' s with
 
 let parse_op (s : string) : nop = match words s with
   | ["R"] -> NRevert
-  | ["S"; dep; rep; non; sto; dec; hash; txs; v2; casm; migr] ->
+  | ["S"; dep; rep; non; sto; dec; dlv; hash; txs; v2; casm; migr] ->
       NStore { b_hash = hx hash;
                b_diff = { d_deploy = List.map pair (list_of dep); d_replace = List.map pair (list_of rep);
                           d_nonce = List.map pair (list_of non); d_store = List.map triple (list_of sto);
-                          d_decl = List.map hx (list_of dec) };
+                          d_decl = List.map hx (list_of dec); d_deliv = List.map hx (list_of dlv) };
                b_txs = List.map tx (list_of txs); b_commit = hx hash; b_bloom = N0;
                b_v2 = (v2 = "1"); b_casm = List.map triple3 (list_of casm); b_migr = List.map pair (list_of migr) }
   | _ -> failwith ("op: " ^ s)
